@@ -118,7 +118,7 @@ pub open spec fn cdata_ok(s: Seq<char>) -> bool { !contains_seq(s, "]]>") }
 //@ ensures
 //@ - comment_ok(r@)     @@C02.comment.text_valid
 //@ - comment_ok(c@) ==> r@ == c@     @@C03.comment.valid_text_unchanged @@C05.comment.valid_text_unchanged
-//@ loop 1
+//@ loop? 1
 //@ iter it
 //@ invariant
 //@ - comment_ok(if prev_hyphen { out@.push(' ') } else { out@ })
